@@ -69,6 +69,7 @@ func init() {
 				}
 			}
 			items = append(items, c.arbItems(arbMode{noPanic: true})...)
+			items = append(items, c.primLongItems(true, false)...)
 			return items
 		}}
 	drivers["C10"] = &Driver{Prop: "C10", Level: "model_checking",
@@ -88,6 +89,7 @@ func init() {
 				items = append(items, Item{ID: "msg:" + mc.ID(), Run: func(c *Ctx) { c10msg(c, mc) }})
 			}
 			items = append(items, c.arbItems(arbMode{alloc: true})...)
+			items = append(items, c.primLongItems(false, true)...)
 			return items
 		}}
 }
@@ -691,4 +693,100 @@ func (c *Ctx) lockLeak(ds *State, mc MsgCase, input func(val func(*Term) uint64)
 				Replay: &ReplayReq{Steps: st, Judge: Judge{Kind: "hang"}}}
 		})
 	}
+}
+
+
+// decPrimLong: a list reader on a long input whose count field claims more elements than are present: K genuine
+// elements (arbitrary bytes) follow an arbitrary count > K. Growth policies that trust the claimed count only
+// after a first chunk of real elements (1024, 2048 ...) are out of reach of the 12/24-byte inputs.
+func decPrimLong(c *Ctx, p primInst, K int, wantNoPanic, wantAlloc bool) {
+	e := c.e()
+	s := c.w.newState()
+	pw := typeWidth(p.TArgs[0]) / 8
+	elem := 2 // ZzObj / int16 / 2-byte fixed strings
+	args0 := []any{}
+	var extra []Value
+	switch p.Family {
+	case "ReadObjectList":
+		extra = []Value{&FuncV{Fn: c.w.fn("codec.NewZzObj")}}
+		args0 = append(args0, nil)
+	case "ReadFixedStringList":
+		extra = []Value{CI(2)}
+		args0 = append(args0, "2")
+	case "ReadBasicTypeList":
+		elem = typeWidth(p.TArgs[1]) / 8
+	default:
+		return
+	}
+	if K >= 1<<uint(8*pw)-1 {
+		return // the prefix cannot claim more than K elements
+	}
+	cnt := e.freshVar("count", 8*pw)
+	s.pc = append(s.pc, Lt(C(cnt.W, uint64(K)), cnt, false))
+	arr := ArrVar(e.freshName("long_in"))
+	body := &Bytes{Len: CI(int64(K * elem))}
+	body.At = func(i *Term) *Term { return Select(arr, i) }
+	in := Concat2(VecBytes(intBytes(cnt, p.LE)), body)
+	bufID := s.newObj(&Obj{Kind: kBuffer, B: in, R: CI(0)})
+	e.watchBuf = bufID
+	oldUnroll := e.unroll
+	e.unroll = K + 8
+	defer func() { e.watchBuf = 0; e.unroll = oldUnroll }()
+	args := append([]Value{&Ptr{Obj: bufID}}, extra...)
+	if p.Fn.Signature.Params().Len() != len(args) {
+		panic(bindErr("signature of " + p.Name))
+	}
+	replay := func(val func(*Term) uint64, j Judge) *ReplayReq {
+		j.Step = 1
+		ja := append([]any{map[string]any{"buf": "b"}}, args0...)
+		return &ReplayReq{Steps: []map[string]any{step("op", "newbuf", "buf", "b", "hex", hexOf(evalBytes(in, val))), step("op", "prim", "fn", p.Name, "args", ja)}, Judge: j}
+	}
+	e.pushCall(s, p.Fn, args, nil)
+	for _, fs := range e.Run(s) {
+		if fs.cut != "" && strings.HasPrefix(fs.cut, "unwind") {
+			c.Prove(fs, "loop-progress", False, func(val func(*Term) uint64) *Violation {
+				return &Violation{Detail: p.Name + ": a read loop runs longer than the input (" + fs.cut + ")", Replay: replay(val, Judge{Kind: "abort"})}
+			})
+			continue
+		}
+		if c.PathProblem(fs, p.Name, func(val func(*Term) uint64, msg string) *Violation {
+			return &Violation{Obligation: "no-panic", Detail: p.Name + " panics on a long list with a hostile count: " + msg, Replay: replay(val, Judge{Kind: "panic"})}
+		}) {
+			continue
+		}
+		c.res.Obl++
+		c.res.Dis++
+		c.checkAllocs(fs, p.Name, in.Len, wantAlloc, wantNoPanic, replay)
+	}
+	c.Witness(s, "long input, hostile count", func(val func(*Term) uint64) any {
+		return map[string]any{"fn": p.Name, "elements_present": K, "claimed_count": val(cnt)}
+	})
+}
+
+func (c *Ctx) primLongItems(wantNoPanic, wantAlloc bool) []Item {
+	var items []Item
+	ks := []int{1030}
+	if c.thorough() {
+		ks = []int{130, 1030, 2060, 4100}
+	}
+	for _, p := range c.primInstances() {
+		p := p
+		switch p.Family {
+		case "ReadObjectList", "ReadFixedStringList":
+		case "ReadBasicTypeList":
+			if p.TArgs[1] != "int16" {
+				continue
+			}
+		default:
+			continue
+		}
+		for _, K := range ks {
+			K := K
+			if K >= 1<<uint(typeWidth(p.TArgs[0]))-1 {
+				continue
+			}
+			items = append(items, Item{ID: fmt.Sprintf("primlong:%s/present=%d", p.Name, K), Run: func(c *Ctx) { decPrimLong(c, p, K, wantNoPanic, wantAlloc) }})
+		}
+	}
+	return items
 }
